@@ -373,8 +373,10 @@ impl McnkChunk {
             // Read the 8-byte chunk header (magic + size, where size is always 0)
             let _chunk_header = ChunkHeader::read_le(reader)?;
 
-            // Read the actual data using size_liquid from MCNK header
-            let mut data = vec![0u8; header.size_liquid as usize];
+            // Read the actual data using size_liquid from MCNK header.
+            // size_liquid counts the 8-byte sub-chunk header as well (a chunk without
+            // liquid carries size_liquid == 8), so the payload is 8 bytes shorter.
+            let mut data = vec![0u8; (header.size_liquid as usize).saturating_sub(8)];
             reader.read_exact(&mut data)?;
 
             if !data.is_empty() {
